@@ -869,7 +869,21 @@ func (w *writePrepareFrame) buildFrame(f *framer, streamID int) error {
 	return f.finish()
 }
 
+// maxTypeInfoDepth bounds how deeply a type description received from the server may be
+// nested (list<list<...>>, tuples and UDTs inside one another). Schemas nest a handful of
+// levels; a body that describes thousands of levels is not a type, and following it would
+// exhaust the stack.
+const maxTypeInfoDepth = 64
+
 func (f *framer) readTypeInfo() TypeInfo {
+	return f.readTypeInfoDepth(0)
+}
+
+func (f *framer) readTypeInfoDepth(depth int) TypeInfo {
+	if depth > maxTypeInfoDepth {
+		panic(fmt.Errorf("type description nested deeper than %d levels", maxTypeInfoDepth))
+	}
+
 	// TODO: factor this out so the same code paths can be used to parse custom
 	// types and other types, as much of the logic will be duplicated.
 	id := f.readShort()
@@ -889,13 +903,17 @@ func (f *framer) readTypeInfo() TypeInfo {
 	switch simple.typ {
 	case TypeTuple:
 		n := f.readShort()
+		// every element takes at least the two bytes of its type id
+		if len(f.buf) < 2*int(n) {
+			panic(fmt.Errorf("not enough bytes in buffer to read a tuple type of %d elements got: %d", n, len(f.buf)))
+		}
 		tuple := TupleTypeInfo{
 			NativeType: simple,
 			Elems:      make([]TypeInfo, n),
 		}
 
 		for i := 0; i < int(n); i++ {
-			tuple.Elems[i] = f.readTypeInfo()
+			tuple.Elems[i] = f.readTypeInfoDepth(depth + 1)
 		}
 
 		return tuple
@@ -908,11 +926,15 @@ func (f *framer) readTypeInfo() TypeInfo {
 		udt.Name = f.readString()
 
 		n := f.readShort()
+		// every field takes at least the length of its name and its type id
+		if len(f.buf) < 4*int(n) {
+			panic(fmt.Errorf("not enough bytes in buffer to read a user defined type of %d fields got: %d", n, len(f.buf)))
+		}
 		udt.Elements = make([]UDTField, n)
 		for i := 0; i < int(n); i++ {
 			field := &udt.Elements[i]
 			field.Name = f.readString()
-			field.Type = f.readTypeInfo()
+			field.Type = f.readTypeInfoDepth(depth + 1)
 		}
 
 		return udt
@@ -922,10 +944,10 @@ func (f *framer) readTypeInfo() TypeInfo {
 		}
 
 		if simple.typ == TypeMap {
-			collection.Key = f.readTypeInfo()
+			collection.Key = f.readTypeInfoDepth(depth + 1)
 		}
 
-		collection.Elem = f.readTypeInfo()
+		collection.Elem = f.readTypeInfoDepth(depth + 1)
 
 		return collection
 	}
